@@ -23,6 +23,9 @@ RULE += (". Widened: (~1.5%) DEEP duplicates — two elements nested 28..70 JSON
          "mostly 9..20 items that share values at the same indices, some with a late duplicate, some without, each site reached through "
          "not / anyOf / oneOf / if / contains / items / prefixItems / properties, so that failures of uniqueItems are swallowed and "
          "validation goes on to the next array; verdicts = model = spec")
+RULE += ("; (~3%) BYTE SEQUENCES ([N]uint8 by value, []uint8, *[N]uint8, elements of [][N]uint8 / [k][N]uint8 / map[string][N]uint8, []any): "
+         "arrays of them with planted duplicates under uniqueItems, and as the values listed by enum / const of a schema built in Go "
+         "(resolve-desc argument govals) against instances in every such spelling, of equal and of different length")
 TRUSTED = ["python canonical-form oracle; 64-bit hash collisions are disregarded"]
 
 
@@ -256,10 +259,50 @@ def multi_site_case(rng):
     return {"op": "validate", "args": {"schema": doc, "ginsts": reprs}, "meta": {"len": 2, "sites": True}}
 
 
+def bytes_case(rng):
+    if rng.random() < 0.5:
+        n = rng.choice([0, 1, 2, 2, 3, 4])
+        items, seen = [], set()
+        for _ in range(rng.randint(1, 6)):
+            b = gv.gen_bytes_json(rng, n if rng.random() < 0.85 else None)
+            if canon(b) not in seen:
+                seen.add(canon(b))
+                items.append(b)
+        dup = rng.random() < 0.5
+        if dup:
+            items = plant(rng, items)
+        return {"op": "validate", "args": {"schema": Obj([("uniqueItems", True)]), "ginsts": [gv.represent_bytes(rng, items) for _ in range(2)]},
+                "meta": {"expect": [not dup, not dup], "len": len(items), "bytes": True}}
+    j1, j2 = gv.gen_bytes_pair(rng)
+    others = [gv.gen_bytes_json(rng) for _ in range(rng.randint(0, 2))]
+    kw = rng.choice(["Enum", "Enum", "Const"])
+    if kw == "Const":
+        vals, node = [j1], {"Const": {"v": j1}}
+    else:
+        vals = others + [j1]
+        rng.shuffle(vals)
+        node = {"Enum": vals}
+    govals = [[1, kw, i, gv.represent_bytes(rng, v)] for i, v in enumerate(vals) if rng.random() < 0.8]
+    where = rng.choice(["allOf", "prop", "items"])
+    if where == "allOf":
+        nodes, insts = [{"AllOf": [1]}, node], [j2, j1]
+    elif where == "prop":
+        nodes, insts = [{"Properties": [["p", 1]]}, node], [Obj([("p", j2)]), Obj([("p", j1)])]
+    else:
+        nodes, insts = [{"Items": 1}, node], [[j2], [j1]]
+    hit = lambda v: any(canon(v) == canon(w) for w in vals)
+    return {"op": "resolve-desc", "args": {"desc": {"nodes": nodes, "root": 0, "govals": govals},
+                                           "ginsts": [gv.represent_bytes(rng, x) for x in insts]},
+            "meta": {"expect": [hit(j2), hit(j1)], "len": 2, "bytes": True}}
+
+
 def gen(rng, tier, n):
     ops = []
     while len(ops) < n:
         r0 = rng.random()
+        if r0 > 0.97:
+            ops.append(bytes_case(rng))
+            continue
         if r0 < 0.015:
             ops.append(deep_case(rng))
             continue
@@ -356,7 +399,7 @@ def judge(o, go, m):
         if go is None:
             return "violation:harness", "no answer"
         if go.get("outcome") == "harness-error":
-            return "violation:harness", "the harness could not build the aliased instance: %s" % go.get("detail")
+            return "violation:harness", "the harness could not build the schema / the aliased instance: %s" % go.get("detail")
         if m is None or "model" not in m:
             return "violation:driver", "driver: %r" % (m,)
         mo = m["model"]
@@ -364,7 +407,8 @@ def judge(o, go, m):
             return "violation", "outcome: real package %s, model %s" % (go.get("outcome"), mo.get("outcome"))
         ev = ["valid" if e else "invalid" for e in o["meta"]["expect"]]
         if go.get("verdicts") != mo.get("verdicts") or go.get("verdicts") != ev:
-            return "violation", "verdicts (first instance: a re-slice of the listed slice; second: the same value built independently): real package %r, model %r, oracle %r" % (
-                go.get("verdicts"), mo.get("verdicts"), ev)
+            what = ("first instance: a re-slice of the listed slice; second: the same value built independently" if o["meta"].get("alias")
+                    else "enum / const of a schema built in Go listing Go values (govals)")
+            return "violation", "verdicts (%s): real package %r, model %r, oracle %r" % (what, go.get("verdicts"), mo.get("verdicts"), ev)
         return "agree", ""
     return vjudge.judge_validate(o, go, m)
